@@ -892,7 +892,14 @@ rt_prop("C07", ["task", "cancel", "comb"],
         "pending on a request the shell dropped, is kept by run_task (a clone of its waker sits in the moved request's channel) "
         "and stranded when the new owner's poll replaces that registration — never polled, never evicted, is_done() false after "
         "every request is resolved or dropped. Replayed on the implementation: known finding "
-        "handed-off-request-strands-first-poller (corpus + `complete` stream). Without handoff completeness is stated "
+        "handed-off-request-strands-first-poller (corpus + `complete` stream). THE PROVABLE HALF of completeness — "
+        "registered_waker_means_live_sender (global invariant LQ, Lemmas/LQ.lean: over every history of the direct host of any "
+        "host-free task program, a channel in which a waker is registered still has its sender; one grind call over pollBlock, "
+        "then the executor and the shell), all_requests_gone_leaves_only_dead_waits (GInv + LQ: once the command is settled and "
+        "every channel is closed, every task still stored is suspended only at requests it has already seen closed, at join "
+        "handles or hosted commands — exactly what run_task evicts WHEN it polls it; the stranded task of the witness is one: "
+        "kernel-evaluated example) and task_waiting_at_request_has_live_sender (a stored task that still waits at a request names "
+        "a channel the shell can still answer). Without handoff completeness is stated "
         "(evict_complete_handoff_free_goal; no counterexample in the `complete` stream) and not proved. It is also FALSE on the "
         "real code outside the modelled fragment: a task that retains a clone of its own waker (FuturesUnordered / "
         "flatten_unordered behind StreamBuilder::then_stream on a stream) and then waits on a dropped one-shot request is never evicted "
